@@ -472,11 +472,11 @@ static cJSON *detach_path(cJSON *object, const unsigned char *path, const cJSON_
     child_pointer++;
 
     parent = get_item_from_pointer(object, (char*)parent_pointer, case_sensitive);
-    decode_pointer_inplace(child_pointer);
 
     if (cJSON_IsArray(parent))
     {
         size_t index = 0;
+        /* an array index is read from the token as written: escape sequences are not digits */
         if (!decode_array_index_from_pointer(child_pointer, &index))
         {
             goto cleanup;
@@ -485,6 +485,7 @@ static cJSON *detach_path(cJSON *object, const unsigned char *path, const cJSON_
     }
     else if (cJSON_IsObject(parent))
     {
+        decode_pointer_inplace(child_pointer);
         if (case_sensitive)
         {
             detached_item = cJSON_DetachItemFromObjectCaseSensitive(parent, (char*)child_pointer);
@@ -1069,7 +1070,6 @@ static int apply_patch(cJSON *object, const cJSON *patch, const cJSON_bool case_
         child_pointer++;
     }
     parent = get_item_from_pointer(object, (char*)parent_pointer, case_sensitive);
-    decode_pointer_inplace(child_pointer);
 
     /* add, remove, replace, move, copy, test. */
     if ((parent == NULL) || (child_pointer == NULL))
@@ -1104,6 +1104,7 @@ static int apply_patch(cJSON *object, const cJSON *patch, const cJSON_bool case_
     }
     else if (cJSON_IsObject(parent))
     {
+        decode_pointer_inplace(child_pointer);
         if (case_sensitive)
         {
             cJSON_DeleteItemFromObjectCaseSensitive(parent, (char*)child_pointer);
